@@ -31,7 +31,8 @@ def refRoute (doc : Doc) (base : String) (cors : Bool) (method path : String) : 
     `public` when the effective list is empty. -/
 inductive AuthVerdict where
   | pub
-  | ran (scheme tok : String)
+  /-- the handler must run, with the request returned by one of these accepted (scheme, token)s -/
+  | ranOneOf (accepted : List (String × String))
   | denied
 deriving Repr, DecidableEq, Inhabited
 
@@ -42,6 +43,8 @@ def schemeRef (doc : Doc) (n : String) : Option AuthRef :=
   | some (.apiKeyQuery q) => some (.queryKey n q)
   | _ => none
 
+/-- scheme `n` is supported, its authenticator is installed, the request carries its
+    credential and the authenticator accepts it -/
 def acceptScheme (doc : Doc) (cfg : Cfg) (req : Req) (n : String) : Option (String × String) :=
   match schemeRef doc n with
   | none => none
@@ -50,25 +53,25 @@ def acceptScheme (doc : Doc) (cfg : Cfg) (req : Req) (n : String) : Option (Stri
     | some (_, accept), some tok => if accept.contains tok then some (n, tok) else none
     | _, _ => none
 
+/-- an alternative is satisfied when every scheme of it is accepted; it yields the accepted
+    (scheme, token) pairs of its schemes -/
+def altAccepted (doc : Doc) (cfg : Cfg) (req : Req) (alt : List String) : List (String × String) :=
+  if !alt.isEmpty && alt.all (fun n => (acceptScheme doc cfg req n).isSome) then alt.filterMap (acceptScheme doc cfg req) else []
+
 def refAuth (doc : Doc) (o : Operation) (cfg : Cfg) (req : Req) : AuthVerdict :=
   let alts := effectiveReqs doc o
   if alts.isEmpty then .pub else
-  match alts.findSome? (fun alt =>
-      if alt.isEmpty then none   -- `{}` alternative: see KF (anonymous alternative)
-      else if alt.all (fun n => (acceptScheme doc cfg req n).isSome) then acceptScheme doc cfg req (alt.headD "") else none) with
-  | some (s, t) => .ran s t
-  | none => .denied
+  match alts.flatMap (altAccepted doc cfg req) with
+  | [] => .denied
+  | acc => .ranOneOf acc
 
 /-- C17: what the preflight of a path item advertises -/
 def refCorsMethods (pi : PathItem) : List String := pi.ops.map (·.method)
 
 def refCorsHeaders (doc : Doc) (pi : PathItem) : List String :=
   let hdrParams := pi.ops.flatMap (fun o => (o.parameters.filter (·.loc == "header")).map (fun p => canonKey p.name))
-  let secHdrs := pi.ops.flatMap (fun o => (effectiveReqs doc o).flatMap (fun alt => alt.filterMap (fun n =>
-    match schemeOf doc n with
-    | some .bearer => some "Authorization"
-    | some (.apiKeyHeader h) => some (canonKey h)
-    | _ => none)))
+  let secHdrs := pi.ops.flatMap (fun o => (effectiveReqs doc o).flatMap (fun alt =>
+    alt.filterMap (fun n => (schemeOf doc n).bind secHeaderOf)))
   (hdrParams ++ secHdrs).eraseDups
 
 /-- C05: every path parameter is the typed value of the request segment at its own template
